@@ -17,7 +17,7 @@ RULE = ('exhaustive: every shape of rank 1..R with extents 1..E (quick R=E=3, th
         'named routines against NumPy on integer-valued data (dtype absent/int64/float32/float64 x initial absent/present); '
         'fixed-dim sources (shape in std::array) with every axis listed explicitly as run-time int / std::array / tuple of ct, '
         'where the view is a number read through reduce_t::operator num_type(); every shape of rank 1..R with extents 0..2 containing a 0 '
-        '(empty results; folds over no element = known finding); an axis named several times under keepdims; trace for every ordered axis '
+        '(empty results; folds over no element = initial value / identity); an axis named several times under keepdims; trace for every ordered axis '
         'pair (positive / negative spelling) and every offset, through the Lean model; plus seeded random shapes of rank 1..5 / extents 1..7. '
         'non-trivial = some fold combines >= 2 elements')
 EXHAUSTIVE = {'quick': True, 'thorough': True}
@@ -32,19 +32,19 @@ ANCHORS = {
     'NmVerif.Reduce.diagonal/trace': 'view::diagonal (index::shape_diagonal, index::diagonal), view::trace = view::sum(diagonal, -1)',
 }
 MANIFEST = dict(
-    text='Proof: 39 Lean theorems over every rank/extent/axis list and an arbitrary binary op (no commutativity or associativity assumed): '
+    text='Proof: 41 Lean theorems over every rank/extent/axis list and an arbitrary binary op (no commutativity or associativity assumed): '
          'result shape = NumPy (single/multi/negative/unsorted axes, keepdims, None; extents 0 included), each result element = left fold of '
-         'exactly the source elements with matching non-reduced coordinates in increasing C order (for every shape whose REDUCED extents are '
-         'positive: kept extents may be 0), independence of the order of the axis list and, under keepdims, of repetitions in it, accumulate = '
+         'exactly the source elements with matching non-reduced coordinates in increasing C order, for EVERY shape (a fold over no element = '
+         'the initial value, else the identity of the functor), independence of the order of the axis list and, under keepdims, of repetitions in it, accumulate = '
          'running fold, all addressed indices in bounds, sum/prod/amax/amin/cumsum/cumprod as instances, mean/var/stddev/vector_norm as '
-         'plumbing statements over abstract element operations, trace = fold of the diagonal elements for every axis pair and offset with a '
-         'non-empty diagonal; tied to the C++ by an exhaustive small-scope differential run of view::reduce/accumulate with an '
+         'plumbing statements over abstract element operations, trace = fold of the diagonal elements for every axis pair and EVERY offset '
+         '(0 on an empty diagonal); tied to the C++ by an exhaustive small-scope differential run of view::reduce/accumulate with an '
          'order-revealing functor (dynamic-dim and fixed-dim sources, array- and number-typed views) and of the named routines against '
          'NumPy on every check.',
     note='Lean kernel + propext/Classical.choice/Quot.sound; model hand-written, fidelity rests on the correspondence run; slicing by in-range '
          '(start,stop) pairs is taken as C05 proves it, the broadcast inside var as C06 proves it; float arithmetic of mean/var/stddev/vector_norm '
-         'is compared with NumPy under a tolerance; two known findings with one root cause (a fold over NO element — reduced axis of extent 0, '
-         'empty diagonal — unwraps the Nothing that view::flatten returns for a zero-size array; fixes/C08-trace-empty-diagonal.diff); '
+         'is compared with NumPy under a tolerance; model and theorems follow the tree repaired by fixes/C08-trace-empty-diagonal.diff '
+         '(a fold over no element); '
          'fixed-shape and clipped container kinds are in C09.',
     technique='Lean 4 induction proofs over List Nat shapes + differential correspondence (exhaustive small scope) + NumPy oracle')
 ASSUMPTIONS = ['apply_slice with in-range pairs 0 <= start < stop <= extent has shape stop-start and reads start+d (C05 domain theorem; observed here through every element of every reduction)',
@@ -52,7 +52,7 @@ ASSUMPTIONS = ['apply_slice with in-range pairs 0 <= start < stop <= extent has 
                'compile-time axes are exercised as meta::ct<k> and tuples of ct on dynamic-dim arrays (rank <= 3) and on fixed-dim arrays (all axes listed); fixed-shape / clipped kinds are covered by the C09 kind matrix, not here',
                'the diagonal index functions (Linalg.shapeDiagonal / diagonalIdx) are the mirrors written for C16; here they are tied to the code through every element of every trace request']
 PARTIAL = ['mean_eq_sum_div_count / var_eq_mean_sq_dev / stddev_eq_sqrt_var / vector_norm_eq (and their _pos_axes forms) are plumbing statements over abstract element operations (which elements are folded, in which order, divided by their count); var takes the broadcast of the keepdims mean against the input as the index map C06 proves; the float arithmetic itself is compared with NumPy under a tolerance',
-           'a fold over no element (some reduced extent 0, result non-empty; empty diagonal of trace) is NOT equal to NumPy in the unchanged code: the model mirrors the UB (reduce_elem_empty_fold_ub, reduce_empty_fold_counterexample, trace_empty_diagonal_counterexample), the requests of that class are judged by the NumPy oracle only and reported as KNOWN-FINDING; once fixes/C08-trace-empty-diagonal.diff is applied, flattenReduce / foldFirstNE must return the initial value or the identity for the empty list and those requests become model=True',
+           'mean / var / stddev / vector_norm over NO element (a reduced extent 0) stay outside the modelled domain (their theorems ask the reduced extents to be positive; NumPy gives nan with a warning)',
            'var / stddev on a shape with a REDUCED extent 0 are not requested: view::var fails earlier, in the broadcast of the keepdims mean against the input (index::broadcast_shape((0,0),(1,0)) answers (1,0); NumPy (0,0)) — a broadcasting matter outside this property, reported to the lead']
 TRUSTED = []
 
@@ -73,10 +73,8 @@ def harness_specs(tier):
             # fixed-dim sources, every axis listed: the view is a number, read through reduce_t::operator num_type()
             dict(name='h_c08s1', src='h_c08s.cpp', flavour='fast', extra=['-DC08S_PART=1']),
             dict(name='h_c08s2', src='h_c08s.cpp', flavour='fast', extra=['-DC08S_PART=2']),
-            # asserts on: a fold over no element (known finding reduce.empty-fold) stops at the failed unwrap instead of
-            # running on with an arbitrary object
-            dict(name='h_c08r_dbg', src='h_c08r.cpp', flavour='dbg'),
-            dict(name='h_c08f4_dbg', src='h_c08f.cpp', flavour='dbg', extra=['-DC08F_PART=4'])]
+            # asserts on: a fold over no element must not trip anything (repaired defect reduce.empty-fold)
+            dict(name='h_c08r_dbg', src='h_c08r.cpp', flavour='dbg')]
 
 
 # ------------------------------------------------------------------------------------------------
@@ -488,14 +486,12 @@ def gen_float(tier, rng):
                                    oracle=fans(np.trace(a, offset=off, axis1=a1, axis2=a2)),
                                    tags=['trace', 'api=' + api, srank, 'offset<0' if off < 0 else 'offset>=0',
                                          'axes=' + ('neg' if w1 < 0 and w2 < 0 else 'mixed' if w1 < 0 or w2 < 0 else 'pos')])
-                # the offsets just beyond the extent: empty diagonal, NumPy gives 0 (known finding trace.empty-diagonal: the
-                # sum folds a zero-length axis); asserts-on build, no model answer (the model says UB)
+                # the offsets just beyond the extent: empty diagonal, the sum over no element is 0 (NumPy; repaired defect
+                # trace.empty-diagonal), theorem trace_eq_sum_diag_any_offset
                 for off in (-s[a1], s[a2]):
-                    if rng.random() > 0.25:
-                        continue
                     api = rng.choice(['view', 'array'])
                     yield Case('trace api=%s et=i32 shape=%s offset=%d axis1=%d axis2=%d data=%s' % (api, fmt(s), off, a1, a2, fmt(data)),
-                               'h_c08f4_dbg', model=False, dom=False, cmp=close_cmp(1e-12, 1e-12), nontrivial=False,
+                               'h_c08f4', model=True, dom=True, cmp=close_cmp(1e-12, 1e-12), nontrivial=False,
                                oracle=fans(np.trace(a, offset=off, axis1=a1, axis2=a2)), tags=['trace', 'empty-diagonal', srank])
     # float fold order: the sum of (1e16, 1, -1e16, …) depends on the order; the reference is the sequential left fold in IEEE double
     vals = [1e16, 1.0, -1e16, 3.0, 1e16, -1e16, 0.5]
@@ -681,23 +677,29 @@ def gen_zero(tier, rng):
                             if all(s[k] > 0 for k in Rset):
                                 yield Case('var ddof=0 ' + base, 'h_c08f1', oracle=fo, nontrivial=False, tags=['var'] + tg)
                     else:
-                        # known finding reduce.empty-fold: NumPy gives the initial value, or the identity of add / multiply.
-                        # Every such request stops the harness process (assert): all of rank <= 2, a sample of the larger ranks
-                        if nd >= 3 and rng.random() > (0.3 if nd == 3 else 0.08):
-                            continue
+                        # a fold over no element: the initial value, or the identity of add / multiply (NumPy; repaired defect
+                        # reduce.empty-fold; theorems reduce_elem_eq_numpy_any_shape, sum/prod_elem_eq_any_shape)
                         tg = ['zero-extent', 'empty-fold', srank, 'keepdims=%d' % keep]
-                        yield Case('reduce op=f31 shape=%s axis=%s keepdims=%d init=7 kd=rt ax=vec' % (fmt(s), axs, keep), 'h_c08_san',
-                                   dom=False, model=False, oracle=ans(oshape, [7] * osize), nontrivial=False, tags=['reduce'] + tg)
+                        for kd in ('ct', 'rt'):
+                            c = Case('reduce op=f31 shape=%s axis=%s keepdims=%d init=7 kd=%s ax=vec' % (fmt(s), axs, keep, kd), 'h_c08',
+                                     oracle=ans(oshape, [7] * osize), nontrivial=False, tags=['reduce'] + tg)
+                            yield c
+                            if kd == 'rt':
+                                yield Case(c.req, 'h_c08_san', oracle=c.oracle, model=False, nontrivial=False, tags=['sanitizer'] + tg)
                         for op, ident in (('add', 0), ('mul', 1)):
                             for init in (None, INIT_OF[op]):
-                                api = rng.choice(['view', 'array'])
                                 a0 = np.zeros(s, dtype=np.int64)
                                 kw = {} if init is None else {'initial': init}
                                 r = np.asarray(NP_UFUNC[op].reduce(a0, axis=None if axes is None else tuple(axes), keepdims=bool(keep), **kw))
                                 assert list(r.shape) == oshape and all(int(x) == (ident if init is None else init) for x in r.reshape(-1))
-                                yield Case('reduce op=%s api=%s ax=vec shape=%s axis=%s keepdims=%d init=%s' % (op, api, fmt(s), axs, keep, init),
-                                           'h_c08r_dbg', dom=False, model=False, oracle=ans(oshape, [int(x) for x in r.reshape(-1)]), nontrivial=False,
-                                           tags=['named-' + ('sum' if op == 'add' else 'prod'), 'api=' + api] + tg)
+                                o = ans(oshape, [int(x) for x in r.reshape(-1)])
+                                base = 'shape=%s axis=%s keepdims=%d init=%s' % (fmt(s), axs, keep, init)
+                                yield Case('reduce op=%s %s' % (op, base), 'h_c08n', oracle=o, nontrivial=False, tags=['ufunc-reduce', 'op=' + op] + tg)
+                                for api in ('view', 'array'):
+                                    yield Case('reduce op=%s api=%s ax=vec %s' % (op, api, base), rng.choice(['h_c08r', 'h_c08r_dbg']), oracle=o, nontrivial=False,
+                                               tags=['named-' + ('sum' if op == 'add' else 'prod'), 'api=' + api] + tg)
+                        yield Case('reduce op=max api=%s ax=vec shape=%s axis=%s keepdims=%d init=3' % (rng.choice(['view', 'array']), fmt(s), axs, keep), 'h_c08r',
+                                   oracle=ans(oshape, [3] * osize), nontrivial=False, tags=['named-amax'] + tg)
         # accumulate keeps the source shape: no element, nothing folded
         for ax in range(nd):
             o = ans(s, [])
@@ -714,7 +716,7 @@ def gen_zero(tier, rng):
                     yield Case(req, 'h_c08f4', dom=True, oracle='ok shape=%s data=[]' % fmt(rest), nontrivial=False,
                                tags=['trace', 'zero-extent', 'empty-result', srank])
                 elif prod(rest) > 0:
-                    yield Case(req, 'h_c08f4_dbg', dom=False, model=False, cmp=close_cmp(1e-12, 1e-12), nontrivial=False,
+                    yield Case(req, 'h_c08f4', dom=True, cmp=close_cmp(1e-12, 1e-12), nontrivial=False,
                                oracle=fans(np.zeros(rest)), tags=['trace', 'zero-extent', 'empty-diagonal', srank])
 
 
@@ -748,10 +750,9 @@ def gen_witnesses():
     # repaired (efdf09d): kept as a regression guard, now inside the domain of trace_eq_sum_diag
     yield Case('trace api=view et=i32 shape=2,3 offset=-1 axis1=0 axis2=1 data=1,2,3,4,5,6', 'h_c08f4', model=True, dom=True,
                oracle='ok shape=[] data=4.0', cmp=close_cmp(1e-12, 1e-12), tags=['witness'])
-    # open: known/C08.json
-    yield Case('reduce op=add api=view shape=2,0 axis=1 keepdims=0 init=5', 'h_c08r_dbg', model=False, dom=False,
-               oracle='ok shape=2 data=5,5', tags=['witness', 'empty-fold'])
-    yield Case('trace api=view et=i32 shape=3,4 offset=4 axis1=0 axis2=1 data=1,2,3,4,5,6,7,8,9,10,11,12', 'h_c08f4_dbg', model=False, dom=False,
+    # repaired (fixes/C08-trace-empty-diagonal.diff): regression guards, inside the domain of the _any_shape theorems
+    yield Case('reduce op=add api=view shape=2,0 axis=1 keepdims=0 init=5', 'h_c08r_dbg', oracle='ok shape=2 data=5,5', tags=['witness', 'empty-fold'])
+    yield Case('trace api=view et=i32 shape=3,4 offset=4 axis1=0 axis2=1 data=1,2,3,4,5,6,7,8,9,10,11,12', 'h_c08f4',
                oracle='ok shape=[] data=0.0', cmp=close_cmp(1e-12, 1e-12), tags=['witness', 'empty-diagonal'])
 
 
